@@ -113,6 +113,9 @@ class ShadowStore:
         self.held = {}             # id(item) -> ItemRec
         self.returned = set()      # id(item) of items already handed out (kept alive in log)
         self.keepalive = []
+        self.forget_items = False  # E1 forgetful histories: an item that has left the store is not kept alive by the monitor, so its
+                                   # address can be handed to a later item (bookkeeping keyed by id(item) must be cleaned on every path)
+        self.freed_item_addrs = set()
         self.pend = {"put": [], "get": []}
         self.grant = {"put": [], "get": []}
         self.seq = 0
@@ -379,7 +382,12 @@ class ShadowStore:
                 self.viol("C02", "duplicate_put", f"{self.kind}:same-object-put-twice", {"item": ir.iid})
             self.held[id(item)] = ir
             self.returned.discard(id(item))
-            self.keepalive.append(item)
+            if self.forget_items:
+                if id(item) in self.freed_item_addrs:
+                    self.freed_item_addrs.discard(id(item))
+                    self.stats["item_address_reused"] += 1
+            else:
+                self.keepalive.append(item)
             self._occ_update()
             self.puts_log.append((self.now(), ir.iid))
             if not self.delayed:
@@ -435,6 +443,9 @@ class ShadowStore:
             mon.counters["gets"] += 1
             for ob in self.observers:
                 ob.on_get(self, ir, rec)
+            if self.forget_items:
+                self.freed_item_addrs.add(id(item))
+                ir.item = None
             self.check_time_average()
         else:  # cancel
             side = rec.side
